@@ -18,6 +18,11 @@ THEOREMS = [
     (M, "C12.match_has_prefix_with_env", "the same after matcher.with_env(environ)"),
     (M, "C12.match_has_prefix_of_shape", "the same for any Matcher value of the parser's shape (unrooted env patterns, repeated variables have a first occurrence)"),
     (M, "C12.matches_own_expansion_partial", "a fully bound, wildcard-free pattern whose regex compiles matches its own expansion (engine run through the literal-like regex)"),
+    (M, "C12.expand_match_star_partial", "expand -> match WITH wildcards (completeness + uniqueness of the backtracking matcher): for a matcher whose top-level nodes are literals, `*`, `**/` (or a final `**`) and first occurrences of fully bound variables (values may use further variables, {l} = '{l10n_base}/{locale}/'; any root), the path obtained by filling the wildcards with well separated values (no '/' in a star value, the literal after a star does not recur later in the same '/'-free run, `**/` = whole newline-free directories, no second double star) is matched, and the returned dictionary has the regex's group names as keys and maps s<n> to the filled value (`**`: None if empty) and every top-level variable to its expansion"),
+    (M, "C12.filled_path_is_expansion_partial", "the filled path is Pattern.expand of the pattern in the environment 'groups returned by match, then the matcher's own environment', so expand_match_star_partial reads: a pattern whose variables and wildcards are bound expands to a path the same matcher matches, returning the bound values"),
+    (M, "C12.star_separator_witness", "the separator hypothesis is forced: '*.*' filled with ('a', 'b.c') gives 'a.b.c', which match decomposes as ('a.b', 'c')"),
+    (M, "C12.wildcard_value_witness", "forced value shapes: '/' in a star value, a `**/` value that is not whole directories or contains a newline, a newline in a final `**`: not matched"),
+    (M, "C12.two_starstar_match_witness", "'one double star with directories' is forced: 'a/x/x/x/q.f' fills 'a/**/x/**/*.f' in several ways, match reports ('x/x/', None, 'q')"),
     (M, "C12.match_returns_bound_values", "... returning the bound variable values: the entry of a bound top-level variable is the expansion of its value"),
     (M, "C12.no_cycle_terminates", "_no_cycle: expansion never nests deeper than 2*len(env)+3 for ANY environment (self/mutual references), unless env['locale'] contains {android_locale}"),
     (M, "C12.matcher_terminates", "hence str(matcher), matcher.prefix and the regex construction terminate"),
@@ -37,12 +42,15 @@ PARTIAL = [
     "hypothesis, the general case is covered by the correspondence + oracle only (match_has_prefix has no such restriction)",
     "android round trip: decided over the shipped table and a curated list, no general lemma (it would have to exclude the two limit families cin / en-US-x-foo)",
     "mozpath.match: no Lean theorem; model tied by structural regex equality + results, laws checked by an independent glob reference over all patterns of <= 3 segments",
-    "expand_match for patterns WITH wildcards (a path obtained by filling the wildcards is matched with those groups) is not proved (needs "
-    "completeness of backtracking + uniqueness of the decomposition); checked by construction on every generated case",
+    "expand_match_star_partial / filled_path_is_expansion_partial (expand -> match with wildcards) are proved for the restricted class only: "
+    "top-level literals, `*`, one `**/` (anything double-star-free after it) or a final `**`, first occurrences of fully bound variables (nested values "
+    "allowed); not proved for repeated variables (back-references), {android_locale}, two double stars (forced: two_starstar_match_witness), unbound (captured) "
+    "variables next to wildcards (the star separator hypotheses are forced: star_separator_witness, wildcard_value_witness); outside the class the construction-based oracle checks every generated case",
 ]
 LEVEL_TEXT = ("Lean 4 theorems over an executable transliteration of paths/matcher.py, valid for ALL patterns, environments and paths: star "
               "groups contain no '/', `**/` groups are None or whole directories, a match consumes the whole path, "
-              "matched paths start with the prefix, a fully bound pattern matches its own expansion and reports the bound values, "
+              "matched paths start with the prefix, a fully bound pattern matches its own expansion and reports the bound values "
+              "(with wildcards: completeness + uniqueness of the backtracking matcher on well separated fillings of the restricted class), "
               "expansion terminates for every environment (cycle cutting) except the locale/android_locale cycle; Android round trip "
               "decided for all shipped + curated locales; model tied to the Python by structural equality of the regex AST and equal "
               "results; independent glob reference + construction-based oracle incl. deliberately non-matching paths")
@@ -307,6 +315,21 @@ def run_moz(ctx, out, rng):
         out.count("moz.cases")
 
 
+# excluded points of the hypotheses of C12.expand_match_star_partial (separator / value shapes): the real code is
+# run there and compared with the model (the Lean witnesses star_separator_witness, wildcard_value_witness are decided
+# on the model); the generic laws still apply, nothing else is demanded (two stars in one segment are outside the grammar)
+SEPARATOR_PROBES = [
+    {"pat": "*.*", "env": [], "root": None, "with": None, "paths": ["a.b.c", "a.b", ".", "a/b.c"]},
+    {"pat": "*-*.ftl", "env": [], "root": None, "with": None, "paths": ["a-b-c.ftl", "-.ftl", "a-b.ftl.ftl"]},
+    {"pat": "*.x", "env": [], "root": None, "with": None, "paths": ["a/b.x", "a.x.x", ".x"]},
+    {"pat": "a/**/x", "env": [], "root": None, "with": None, "paths": ["a//x", "a/bx", "a/b\nc/x", "a/b/x", "a/x"]},
+    {"pat": "a/**", "env": [], "root": None, "with": None, "paths": ["a/b\nc", "a/b/c", "a/"]},
+    {"pat": "a/**/x/*.f", "env": [], "root": None, "with": None, "paths": ["a/x/x/q.f", "a/x/q.f", "a/y/x/x/q.f"]},
+    {"pat": "l/{locale}/**/*.ftl", "env": [("locale", "de")], "root": None, "with": None,
+     "paths": ["l/de/a/b/c.d.ftl", "l/de/c.d.ftl", "l/de/a/.ftl", "l/fr/a/b/c.ftl"]},
+]
+
+
 def run(ctx):
     out = Outcome()
     out.rule = ("single matchers from the C11 grammar (bounded-exhaustive up to 2/3 segments + seeded random, roots, with_env, nested "
@@ -344,6 +367,7 @@ def run(ctx):
     for kind in sorted({k for k, _ in sp}):
         run_specs(ctx, out, [s for k, s in sp if k == kind], "env." + kind, generic_laws)
     run_specs(ctx, out, [G.gen_wild(rng) for _ in range(ctx.n(15000, 150000))], "wild", generic_laws)
+    run_specs(ctx, out, [dict(s) for s in SEPARATOR_PROBES], "probe.separator", generic_laws)
     run_android(ctx, out)
     run_moz(ctx, out, ctx.rng("c12", "moz"))
     return out
